@@ -20,17 +20,50 @@ def parseHexNat? (s : String) : Option Nat :=
 def parseOptBytes (s : String) : Option (Option Bytes) :=
   if s == "-" then some none else (parseHex s).map some
 
-/-- template entry `type=hex` | `type=!len` (NULL pointer) -/
-def parseEntry (s : String) : Option (Nat × Option Bytes) :=
+/-- element of a nested template: `type=hex` | `type=!len` -/
+def parseNestedEntry (s : String) : Option (Nat × Option Bytes × Nat) :=
   match s.splitOn "=" with
   | [ty, v] => do
       let t ← parseHexNat? ty
-      if v.startsWith "!" then pure (t, none)
-      else if v.startsWith "{" then pure (t, some [])     -- nested templates: not interpreted by the spine
-      else do let b ← parseHex v; pure (t, some b)
+      if v.startsWith "!" then do let n ← parseNat? (v.drop 1).toString; pure (t, none, n)
+      else do let b ← parseHex v; pure (t, some b, b.length)
   | _ => none
 
+/-- template entry `type=hex` | `type=!len` (NULL pointer) | `type={e;e;…}` (array of CK_ATTRIBUTE) -/
+def parseEntry (s : String) : Option TEntry :=
+  match s.splitOn "={" with
+  | [ty, body] => do
+      let t ← parseHexNat? ty
+      let inner := (body.dropEnd 1).toString
+      let es ← ((inner.splitOn ";").filter (· ≠ "")).mapM parseNestedEntry
+      pure { ty := t, val := some [], len := 24 * es.length, nested := some es }
+  | _ =>
+    match s.splitOn "=" with
+    | [ty, v] => do
+        let t ← parseHexNat? ty
+        if v.startsWith "!" then do let n ← parseNat? (v.drop 1).toString; pure { ty := t, val := none, len := n }
+        else do let b ← parseHex v; pure { ty := t, val := some b, len := b.length }
+    | _ => none
+
 def parseTpl (ws : List String) : Option Template := ws.mapM parseEntry
+
+/-- `type:cap` of a getattr request (`n` = NULL buffer) -/
+def parseReq (w : String) : Option (Nat × Option Nat) :=
+  match w.splitOn ":" with
+  | [ty, cap] => do
+      let t ← parseHexNat? ty
+      if cap == "n" then pure (t, none) else do let c ← parseNat? cap; pure (t, some c)
+  | _ => none
+
+/-- `type:len:data` of a getattr answer: len −1 = CK_UNAVAILABLE_INFORMATION; data `-` = nothing written -/
+def parseGot (w : String) : Option (Nat × Option Bytes) :=
+  match w.splitOn ":" with
+  | [_, len, data] => do
+      let l ← if len == "-1" then some UNAVAILABLE else parseNat? len
+      if data == "-" then pure (l, none)
+      else if data.startsWith "W" || data.endsWith "!OVERRUN" then pure (l, some [0xBA, 0xD0])   -- wrote where it must not
+      else do let b ← parseHex data; pure (l, some b)
+  | _ => none
 
 structure Parsed where
   call : Call
@@ -88,6 +121,23 @@ def parsePair (op res : List String) : Option Parsed :=
       let r ← parseNat? rv
       let hv ← parseNat? ho
       pure ⟨.create (← parseNat? h) (← parseTpl tpl) r, { rv := r, nums := if r == 0 then [hv] else [] }⟩
+  | "getattr" :: _ :: _ :: req, rv :: h :: o :: got => do
+      let rq ← req.mapM parseReq
+      let g ← got.mapM (fun w => if w == "!WROTE" || w == "!UNSTABLE" then some (0, some [0xBA, 0xD0]) else parseGot w)
+      let r ← parseNat? rv
+      let detail := r == 0 || r == 0x11 || r == 0x12 || r == 0x150
+      pure ⟨.getAttr (← parseNat? h) (← parseNat? o) rq g, { rv := r, nums := if detail then g.map (·.1) else [], vals := if detail then g.map (·.2) else [] }⟩
+  | "setattr" :: _ :: _ :: tpl, [rv, h, o] => do
+      let r ← parseNat? rv
+      pure ⟨.setAttr (← parseNat? h) (← parseNat? o) (← parseTpl tpl) r, { rv := r }⟩
+  | "copy" :: _ :: _ :: tpl, [rv, h, o, ho] => do
+      let r ← parseNat? rv
+      let hv ← parseNat? ho
+      pure ⟨.copy (← parseNat? h) (← parseNat? o) (← parseTpl tpl) r, { rv := r, nums := if r == 0 then [hv] else [] }⟩
+  | ["objsize", _, _], [rv, h, o, sz] => do
+      let r ← parseNat? rv
+      let z ← parseNat? sz
+      pure ⟨.objSize (← parseNat? h) (← parseNat? o), { rv := r, nums := if r == 0 then [z] else [] }⟩
   | ["destroy", _, _], [rv, h, o] => do pure ⟨.destroy (← parseNat? h) (← parseNat? o), { rv := ← parseNat? rv }⟩
   | ["probe", _, _], [rv, h, o] => do pure ⟨.objProbe (← parseNat? h) (← parseNat? o), { rv := ← parseNat? rv }⟩
   | "findinit" :: _ :: tpl, rv :: h :: minted => do
